@@ -73,6 +73,9 @@ pub enum Op {
     GetTtl { k: u64 },
     /// look up, keep the ValueRef while the clock advances by dt, read its ttl again
     GetHold { k: u64, dt: i64 },
+    /// n lookups of n distinct keys that are never written (misses), each batch applied by the
+    /// policy worker as soon as it is queued
+    GetWide { n: u16, base: u16 },
     UpdateMaxCost { m: i64 },
     /// `pre`: insert-arm steps the processor takes before the clear arm, should clear() wait
     Clear { pre: usize },
@@ -313,6 +316,7 @@ pub struct Interp<'a> {
     /// a lookup ran concurrently with a clear(): on which side of the counter reset it fell is not known
     lookups_uncertain: bool,
     policy_diverged: bool,
+    metrics_bad_before_clear: bool,
     interposed_then_clear: bool,
     interposed_then_lookup: bool,
     all_deadlines: Vec<i64>,
@@ -417,6 +421,7 @@ impl<'a> Interp<'a> {
             lookups_since_clear: 0,
             lookups_uncertain: false,
             policy_diverged: false,
+            metrics_bad_before_clear: false,
             interposed_then_clear: false,
             interposed_then_lookup: false,
             all_deadlines: Vec::new(),
@@ -461,6 +466,9 @@ impl<'a> Interp<'a> {
     }
 
     fn key(&self, k: u64) -> (u64, u64) {
+        if k >= WIDE {
+            return wide_index(k);
+        }
         self.cfg.keys[(k as usize) % self.cfg.keys.len()]
     }
 
@@ -1022,7 +1030,15 @@ impl<'a> Interp<'a> {
             ];
             for (name, got, want, props) in pairs {
                 if got != want {
+                    if self.epoch == 0 {
+                        self.metrics_bad_before_clear = true;
+                    }
                     self.fail("metrics_counter", props, format!("{}: metric {} is {}, expected {}", what, name, got, want));
+                    // C11: after clear() the counters restart from zero and the cache behaves like a
+                    // fresh one - a counter that was right up to the clear and goes wrong after it
+                    if self.epoch > 0 && !self.metrics_bad_before_clear {
+                        self.fail("metrics_after_clear", &["C11"], format!("{}: after a clear(), metric {} is {}, a fresh cache would show {} (the counters agreed with the model up to the clear)", what, name, got, want));
+                    }
                 }
             }
             if mv.hist_count != self.m.m.hist {
@@ -1792,6 +1808,29 @@ impl<'a> Interp<'a> {
         }
     }
 
+    fn op_get_wide(&mut self, n: u16, base: u16) {
+        self.tr(|| format!("{} lookups of distinct absent keys (from wide key {})", n, base));
+        for i in 0..n as u64 {
+            let k = WIDE + base as u64 * 100_000 + i;
+            let (index, _) = self.key(k);
+            let got = self.sut.get(k);
+            self.lookups_since_clear += 1;
+            if let Some((v, _)) = got {
+                self.fail("lookup_unaccepted", P_C02, format!("lookup of the never-written key {} returned {}", k, v));
+            }
+            if self.m.synced {
+                if self.cfg.metrics {
+                    self.m.m.misses += 1;
+                }
+                self.ring_push(index, false);
+            }
+            while self.op_policy_step() {}
+            if self.halted {
+                break;
+            }
+        }
+    }
+
     fn op_get_hold(&mut self, k: u64, dt: i64) {
         let (index, _) = self.key(k);
         let me = self.model_lookup(k);
@@ -2032,6 +2071,23 @@ impl<'a> Interp<'a> {
                     }
                 }
                 let ideal: Vec<(u64, u32)> = self.m.ideal.iter().map(|(k, c)| (*k, *c)).collect();
+                // C14 at the level of the cache: what was recorded in this window is in the
+                // doorkeeper, and - the window never holding more entries than the filter was
+                // created for - hashes that were never recorded are (almost) never reported
+                for (k, _) in ideal.iter() {
+                    if !self.sut.doorkeeper_has(*k) {
+                        self.fail("doorkeeper_false_negative", &["C14"], format!("index {} was recorded since the last aging reset but the doorkeeper does not report it", k));
+                    }
+                }
+                let probes = 40u64;
+                let present = (0..probes).filter(|i| self.sut.doorkeeper_has(0x5EED_0000_0000_0001u64 ^ i.wrapping_mul(0x9E37_79B9_7F4A_7C15))).count();
+                if present >= 10 {
+                    self.fail(
+                        "doorkeeper_false_positives",
+                        &["C14", "C13"],
+                        format!("{} of {} never-recorded hashes are reported by the doorkeeper (created for {} entries at 1%; {} recorded in the current window)", present, probes, samples, self.m.w),
+                    );
+                }
                 for (k, c) in ideal {
                     let est = self.sut.estimate(k);
                     if est < (c.min(16)) as i64 {
@@ -2306,6 +2362,7 @@ impl<'a> Interp<'a> {
             Op::Remove { k } => self.op_remove(*k % self.nkeys()),
             Op::Get { k } => self.op_get(*k % self.nkeys(), false, None),
             Op::GetMut { k, write } => self.op_get(*k % self.nkeys(), true, *write),
+            Op::GetWide { n, base } => self.op_get_wide(*n, *base),
             Op::Bulk { n } => {
                 let nk = self.nkeys();
                 for i in 0..*n as u64 {
@@ -2344,7 +2401,7 @@ impl<'a> Interp<'a> {
         }
         let is_client = matches!(
             op,
-            Op::Insert { .. } | Op::Bulk { .. } | Op::InsertIfPresent { .. } | Op::Remove { .. } | Op::Get { .. } | Op::GetHold { .. } | Op::GetMut { .. } | Op::UpdateMaxCost { .. } | Op::Clear { .. }
+            Op::Insert { .. } | Op::Bulk { .. } | Op::InsertIfPresent { .. } | Op::Remove { .. } | Op::Get { .. } | Op::GetWide { .. } | Op::GetHold { .. } | Op::GetMut { .. } | Op::UpdateMaxCost { .. } | Op::Clear { .. }
         );
         if quiesce && is_client {
             self.drain(false);
